@@ -294,8 +294,23 @@ def mid_update_cancel(ctx):
     ref_path = os.path.join(str(ctx.work), "mid_ref.h5")
     ref = tdgl.solve(dev, runs.options(solve_time=0.06, save_every=1, output_file=ref_path, **base), applied_vector_potential=A)
     ref_frames = {fr["step"]: fr for fr in runs.parse_h5(ref.path)[0]}
-    for where, at_step in (("solve_for_observables", 6), ("get_induced_vector_potential", 5), ("solve_for_observables", 3)):
-        orig = getattr(TDGLSolver, where)
+    class _Interrupting:
+        """stands in for the covariant Laplacian inside ONE evaluation of the site update: Ctrl-C arrives while it is applied"""
+
+        def __init__(self, M, st):
+            self.M, self.st = M, st
+
+        def __matmul__(self, v):
+            self.st["fired"] = True
+            raise KeyboardInterrupt()
+
+        def __getattr__(self, k):
+            return getattr(self.M, k)
+
+    for where, at_step in (("solve_for_observables", 6), ("get_induced_vector_potential", 5), ("solve_for_observables", 3), ("solve_for_psi_squared", 5), ("solve_for_psi_squared:adaptive", 6)):
+        adaptive_ = where.endswith(":adaptive")
+        where = where.split(":")[0]
+        orig = TDGLSolver.__dict__[where] if where == "solve_for_psi_squared" else getattr(TDGLSolver, where)
         upd = TDGLSolver.update
         st = dict(step=-1, calls=0, fired=False)
 
@@ -310,16 +325,33 @@ def mid_update_cancel(ctx):
                 raise KeyboardInterrupt()
             return orig(s_, *a, **kw)
 
+        def hooked_site(**kw):
+            # Ctrl-C INSIDE the evaluation of the site update (while the Laplacian is applied), first evaluation of the step
+            if st["step"] == at_step and not st["fired"]:
+                kw = dict(kw, psi_laplacian=_Interrupting(kw["psi_laplacian"], st))
+            return orig.__func__(**kw)
+
         out = os.path.join(str(ctx.work), f"mid_{where}_{at_step}.h5")
         TDGLSolver.update = update
-        setattr(TDGLSolver, where, hooked)
+        setattr(TDGLSolver, where, staticmethod(hooked_site) if where == "solve_for_psi_squared" else hooked)
+        raised_ = None
         try:
-            sol = tdgl.solve(dev, runs.options(solve_time=0.06, save_every=4, output_file=out, **base), applied_vector_potential=A)
+            sol = tdgl.solve(dev, runs.options(solve_time=0.06, save_every=4, output_file=out, **dict(base, **(dict(adaptive=True, dt_max=5e-3) if adaptive_ else {}))), applied_vector_potential=A)
         except KeyboardInterrupt:
             sol = None
+        except Exception as e:  # noqa: a cancellation must not turn into an error
+            sol, raised_ = None, e
         finally:
             TDGLSolver.update = upd
             setattr(TDGLSolver, where, orig)
+        if st["fired"] and (raised_ is not None or (sol is not None and int(sol.tdgl_data.state["step"]) != at_step)):
+            what_ = (f"solve() raised {type(raised_).__name__}: {str(raised_)[:100]}" if raised_ is not None
+                     else f"the run went on to step {int(sol.tdgl_data.state['step'])}")
+            rp = dict(interrupted_in=where, at_step=at_step, adaptive=adaptive_, outcome=what_)
+            ctx.fail("cancel-mid-update:not-honoured", f"Ctrl-C inside {where} of step {at_step} did not cancel the run with a partial solution at that step: {what_}", rp)
+            first = first or dict(key="cancel-mid-update:not-honoured", what=what_, **rp)
+            ctx.case(("mid-update-cancel", where, at_step, adaptive_), nontrivial=True)
+            continue
         ctx.case(("mid-update-cancel", where, at_step), nontrivial=st["fired"])
         ctx.count("mid_update_cancellations" if st["fired"] else "mid_update_injection_not_reached")
         if not st["fired"] or not os.path.exists(out):
